@@ -16,7 +16,7 @@ T=$ROOT/target/cov
 BIN=$(dirname "$(rustc +nightly --print target-libdir)")/bin
 export CARGO_NET_OFFLINE=true
 mkdir -p "$T/prof"; rm -f "$T"/prof/*.profraw
-( cd harness && RUSTFLAGS="--cfg flacenc_verif -Cinstrument-coverage" cargo +nightly build --offline --release --target-dir "$T" ) > "$T/build.log" 2>&1 || { echo "coverage build failed, see $T/build.log"; exit 3; }
+( cd harness && LLVM_PROFILE_FILE="$T/prof/build-%p-%m.profraw" RUSTFLAGS="--cfg flacenc_verif -Cinstrument-coverage" cargo +nightly build --offline --release --target-dir "$T" ) > "$T/build.log" 2>&1 || { echo "coverage build failed, see $T/build.log"; exit 3; }
 EXE=$T/release/fvmon
 # the monitors write evidence/ and read known_findings.txt relative to VERIF_ROOT: give them a scratch
 # root, so that the committed evidence is never overwritten by this tool
